@@ -5,6 +5,7 @@ CONSTANTS
   MaxDepth = 3
   Ordered = TRUE
   Exits = TRUE
+  Hard = FALSE
 VIEW GView
 INVARIANTS TypeOK RecNested Bounded PrecOK
 PROPERTIES GSaveAgrees GLifeAgrees GRecordAgrees
